@@ -128,8 +128,8 @@ func c13Child(c *mon.Child) {
 
 func init() {
 	Register(&mon.Spec{
-		ID:   "C13",
-		Rule: "case = (generated grammar without ~ and lookahead groups, token string): the same text is parsed by parsers built with lookahead 0,1,2,3,5,8,50,MaxLookahead,unlimited; once some k succeeds every larger k must succeed with an identical AST (all fields, positions and token lists). Non-trivial: the parse succeeded for some k and either a smaller k failed or the reference trace at the first successful k abandoned an attempt. Distinct by (grammar IR, token string).",
+		ID:          "C13",
+		Rule:        "case = (generated grammar without ~ and lookahead groups, token string): the same text is parsed by parsers built with lookahead 0,1,2,3,5,8,50,MaxLookahead,unlimited; once some k succeeds every larger k must succeed with an identical AST (all fields, positions and token lists). Non-trivial: the parse succeeded for some k and either a smaller k failed or the reference trace at the first successful k abandoned an attempt. Distinct by (grammar IR, token string).",
 		Assumptions: []string{"the verdict is purely metamorphic (no reference semantics involved); the reference trace only supplies coverage counts"},
 		Batches:     func(t string) int { return pick(t, 4, 16) },
 		Floor:       func(t string) int { return pick(t, 1500, 30000) },
